@@ -115,7 +115,8 @@ def gen_db(rng, isa):
         forms.append({"name": names[fi], "kinds": kinds, "roles": roles, "hidden": hidden, "idiom": idiom,
                       "lat": rng.choice(LATS)})
     B = lambda b: "true" if b else "false"
-    isa_y = ["osaca_version: 0.3.4", "isa: \"%s\"" % isa, "instruction_forms:"]
+    isa_y = ["osaca_version: 0.3.4", "isa: \"%s\"" % isa,
+             "instruction_forms:" + ("" if any(f["roles"] is not None for f in forms) else " []")]
     for f in forms:
         if f["roles"] is None:
             continue
